@@ -74,7 +74,7 @@ EmitBind(dummy) ==
 \* ---------------------------------------------------------------- item
 XsOf(sig) == {sig.items[i].x : i \in 1..Len(sig.items)}
 Full(sig) == Len(sig.items) =< FullUpTo
-QSet(sig)  == IF "Query" \in XsOf(sig) THEN (IF Full(sig) THEN {"absent"} \cup StructPl ELSE {"absent", "v1", "wrongtype"}) ELSE {"absent", "v2"}
+QSet(sig)  == IF "Query" \in XsOf(sig) THEN (IF Full(sig) THEN {"absent", "emptyq"} \cup StructPl ELSE {"absent", "v1", "wrongtype"}) ELSE {"absent", "v2"}
 ASet(sig)  == IF "Auth" \in XsOf(sig) THEN (IF Full(sig) THEN {"absent", "h1", "h2"} ELSE {"absent", "h1"}) ELSE {"absent"}
 MfSet(sig) == IF "MaxFwd" \in XsOf(sig) THEN {"absent", "valid", "invalid"} ELSE {"absent"}
 CkSet(sig) == IF "Cookie" \in XsOf(sig) THEN (IF Full(sig) THEN {"absent", "v1", "v2", "wrongtype", "missing"} ELSE {"absent", "v1", "missing"}) ELSE {"absent"}
